@@ -353,6 +353,14 @@ bool advance_idle() {
     return true;
 }
 
+// dispatch-mode driver: wait like a blocked poll would - until any kernel object changes or simulated time
+// reaches the next timer/environment event. Returns false when nothing can ever happen again.
+bool wait_kernel_event() {
+    if (R->now > R->cfg.max_time_ns || R->horizon_hit) { R->horizon_hit = true; return false; }
+    int rc = epoll_block(-1, 0);
+    return rc != 2;
+}
+
 void park() { block(Thread::W_PARK, nullptr); }
 void unpark(int tid) {
     Thread &o = *R->threads[tid];
